@@ -73,13 +73,15 @@ def tetrad_to_graph(filename: str, graph_type):
                     if end2 == TetradEndpoint.ARROW.value:
                         G.add_edge(node1, node2, G.bidirected_edge_name)
                     elif end2 == TetradEndpoint.TAIL.value:
-                        G.add_edge(node1, node2, G.directed_edge_name)
+                        # node1 <-- node2
+                        G.add_edge(node2, node1, G.directed_edge_name)
                     elif end2 == TetradEndpoint.CIRCLE.value:
                         G.add_edge(node1, node2, G.circle_edge_name)
                         G.add_edge(node2, node1, G.directed_edge_name)
                 elif end1 == TetradEndpoint.TAIL.value:
                     if end2 == TetradEndpoint.ARROW.value:
-                        G.add_edge(node2, node1, G.directed_edge_name)
+                        # node1 --> node2
+                        G.add_edge(node1, node2, G.directed_edge_name)
                     elif end2 == TetradEndpoint.TAIL.value:
                         G.add_edge(node2, node1, G.undirected_edge_name)
                     elif end2 == TetradEndpoint.CIRCLE.value:
